@@ -41,6 +41,15 @@ class Markers(object):
         self.n = 1000
 
     def __call__(self, rnd):
+        # real files repeat commands verbatim (the same M204 S500 before every perimeter): a quarter of the instances are
+        # byte-identical repeats of a recent one
+        if getattr(self, "recent", None) and rnd.random() < 0.25:
+            return rnd.choice(self.recent)
+        cmd = self.fresh(rnd)
+        self.recent = (getattr(self, "recent", []) + [cmd])[-5:]
+        return cmd
+
+    def fresh(self, rnd):
         code = rnd.choice(sorted(self.ext) + ["M104", "M106"])
         self.n += 1
         n = self.n
@@ -115,6 +124,7 @@ def check_deferral(tr, case, stats, script_steps=True):
     exit_ = case.get("exit_lines") or []
     model = DeferModel(ext)
     delivered = collections.Counter()
+    seen_in = collections.Counter()
     for r in tr.steps:
         cmds = r["out"] if r["kind"] in ("g", "script") else r["sent"]
         if r["kind"] == "event":
@@ -125,6 +135,8 @@ def check_deferral(tr, case, stats, script_steps=True):
             continue
         if r["kind"] == "g" and r.get("exc"):
             break
+        if r["kind"] == "g" and r.get("code") in ext:
+            seen_in[r["cmd"]] += 1
         for c in cmds:
             if c in enter or c in exit_:
                 continue
@@ -188,8 +200,10 @@ def check_deferral(tr, case, stats, script_steps=True):
             if tokenize(c)[0] in ext or c in enter or c in exit_:
                 out.append(viol(tr, r, "unexpected-command", "%r in the output of %r (episode open: %s): %r" % (c, r["cmd"], r["open_after"], cmds)))
     for c, n in delivered.items():
-        if n > 1:
-            out.append(dict(kind="delivered-more-than-once", idx=-1, cmd=c, detail="%r was delivered %d times" % (c, n), mechanism=None))
+        code = tokenize(c)[0]
+        if ext.get(code) in ("first", "last") and n > seen_in.get(c, 0):
+            out.append(dict(kind="delivered-more-than-once", idx=-1, cmd=c, mechanism=None,
+                            detail="%r was delivered %d times but occurs only %d times in the input" % (c, n, seen_in.get(c, 0))))
     return out
 
 
